@@ -179,7 +179,7 @@ Proof.
   split.
   - apply DInv_split. split.
     + apply (push_core w cl s s' r D); try congruence.
-      destruct Hcase as [(h1 & h2 & h3 & h4 & h5)|(h1 & h2 & h3)]; [left|right];
+      all: destruct Hcase as [(h1 & h2 & h3 & h4 & h5)|(h1 & h2 & h3)]; [left|right];
         repeat split; congruence.
     + unfold len_ok in *. rewrite e1, f1, app_length. cbn [length]. lia.
   - rewrite e1, f1. destruct (s_blocks s); discriminate.
